@@ -319,6 +319,11 @@ func runQueue(kv map[string]string) string {
 	failAfter := atoi(kv["fail"])
 	closeErr := kv["closeerr"] == "1"
 	borrow := atoi(kv["borrow"])
+	// (round 6) dur=<ms>: every reporter spreads its K reports over this time — longer than the aggregator's flush
+	// period (phout: 1 s ticker, hard-coded), so that flush ticks fire while samples keep arriving; wslow=<µs>: every
+	// Write of the sink takes that long (a slow disk): a flush is still in progress when the next samples come
+	dur := time.Duration(atoi(kv["dur"])) * time.Millisecond
+	wslow := time.Duration(atoi(kv["wslow"])) * time.Microsecond
 	var bpool *borrowPool
 	if borrow > 0 {
 		bpool = &borrowPool{}
@@ -389,7 +394,7 @@ func runQueue(kv map[string]string) string {
 		case failAfter > 0:
 			fs = &failFs{Fs: afero.NewMemMapFs(), limit: failAfter}
 		default:
-			fs = &trackFs{Fs: afero.NewMemMapFs(), closeErr: cerr}
+			fs = &trackFs{Fs: afero.NewMemMapFs(), closeErr: cerr, delay: wslow}
 		}
 		a, err := netsample.NewPhout(fs, conf)
 		if err != nil {
@@ -460,7 +465,7 @@ func runQueue(kv map[string]string) string {
 			fsink = func() *failSink { return fk }
 			conf.Sink = &failMemSink{fk}
 		default:
-			tf := &trackFile{closeErr: cerr}
+			tf := &trackFile{closeErr: cerr, delay: wslow}
 			file = func() *trackFile { return tf }
 			conf.Sink = &memSink{tf}
 		}
@@ -524,6 +529,9 @@ func runQueue(kv map[string]string) string {
 				}
 				report(gi, ki)
 				seqOf[gi][ki] = seq.Add(1)
+				if dur > 0 && k > 0 {
+					time.Sleep(dur / time.Duration(k))
+				}
 				if jit%3 != 0 && r.Intn(4) == 0 {
 					runtime.Gosched()
 				}
